@@ -50,6 +50,8 @@ pub trait DynTarget: Sync + Send {
 	fn try_read(&'static self, key: ThreadKey) -> Result<Box<dyn DynGuard>, ThreadKey>;
 	fn scoped(&'static self, read: bool, try_: bool, key: KeyArg<'_>, body: &mut Body<'_>) -> ScopedRes;
 	fn debug_fmt(&self) -> String;
+	/// `{:?}` into an arbitrary sink (which may fail part-way)
+	fn debug_fmt_to(&self, w: &mut dyn std::fmt::Write) -> std::fmt::Result;
 	/// child()/iter()/as_ref()/&coll iteration where the type has them; returns
 	/// how many accessors were exercised
 	fn accessors(&'static self) -> usize {
@@ -274,6 +276,9 @@ where
 	fn debug_fmt(&self) -> String {
 		format!("{:?}", self)
 	}
+	fn debug_fmt_to(&self, w: &mut dyn std::fmt::Write) -> std::fmt::Result {
+		write!(w, "{:?}", self)
+	}
 	fn accessors(&'static self) -> usize {
 		self.k_accessors()
 	}
@@ -354,6 +359,9 @@ impl DynTarget for M {
 	fn debug_fmt(&self) -> String {
 		format!("{:?}", self)
 	}
+	fn debug_fmt_to(&self, w: &mut dyn std::fmt::Write) -> std::fmt::Result {
+		write!(w, "{:?}", self)
+	}
 }
 
 impl DynTarget for R {
@@ -407,6 +415,9 @@ impl DynTarget for R {
 	}
 	fn debug_fmt(&self) -> String {
 		format!("{:?}", self)
+	}
+	fn debug_fmt_to(&self, w: &mut dyn std::fmt::Write) -> std::fmt::Result {
+		write!(w, "{:?}", self)
 	}
 }
 
@@ -558,6 +569,9 @@ macro_rules! pois_target {
 			}
 			fn debug_fmt(&self) -> String {
 				format!("{:?}", self)
+			}
+			fn debug_fmt_to(&self, w: &mut dyn std::fmt::Write) -> std::fmt::Result {
+				write!(w, "{:?}", self)
 			}
 			fn is_poisoned(&self) -> Option<bool> {
 				Some(Poisonable::is_poisoned(self))
